@@ -28,7 +28,7 @@ EXPLANATION = ('C17: two workers (optionally with a helper child that keeps the 
                'restarted by a kill request}; oracle per (pid, channel) on byte streams, handler bookkeeping, spinning and the fake fd table. ')
 
 SIZES = (1, 1023, 1024, 1025, 2049, 4096)
-KINDS = ('write', 'turn', 'close', 'die', 'kill_sibling', 'write_both')
+KINDS = ('write', 'turn', 'close', 'die', 'kill_sibling', 'write_both', 'kill_async')
 
 
 class Collector(object):
@@ -59,7 +59,7 @@ def c17_streams(k1: int, a1: int, b1: int, k2: int, a2: int, b2: int, k3: int, a
         table = vpipes.PipeTable(k)
         k.pipes = table
         helper = S.get('helper', 0)
-        k.behaviour = lambda i, argv: Beh(obey=0.0, nchildren=helper)
+        k.behaviour = lambda i, argv: Beh(obey=S.get('obey', 0.0), nchildren=helper)
         out, err = Collector('stdout'), Collector('stderr')
         wa = w.mk_watcher('a', numprocesses=2, graceful_timeout=0.2, stdout_stream={'stream': out}, stderr_stream={'stream': err})
         # count handler invocations per fd (instrumentation around the real method)
@@ -102,6 +102,16 @@ def c17_streams(k1: int, a1: int, b1: int, k2: int, a2: int, b2: int, k3: int, a
                         w.run_for(0.05)
                     w.check_now()
                     w.run_for(0.2)
+                elif kd == 'kill_async' and live:
+                    # a kill request is sleeping in its poll while the worker dies, is reaped and replaced by the periodic check
+                    w.run_for(0.3)
+                    p = live[a % len(live)]
+                    w.send('kill', name='a', pid=p.pid)
+                    w.run_for(0.06)
+                    k.external_kill(p.pid)
+                    w.run_for(0.002)
+                    w.check_now()
+                    w.run_for(0.3)
                 elif kd == 'kill_sibling' and live:
                     w.run_for(0.3)
                     p = live[a % len(live)]
@@ -237,6 +247,7 @@ def plan(tier):
     for k1 in range(len(KINDS)):
         sh.append({'k1': k1, 'K': 2, 'helper': 0} if q else {'k1': k1, 'K': 3, 'helper': 0, 'nsizes': 4})
     sh.append({'k1': 3, 'K': 3, 'helper': 1, 'nsizes': 2})
+    sh.append({'k1': 6, 'K': 2, 'helper': 0, 'obey': 0.5})
     if not q:
         sh.append({'k1': 0, 'K': 3, 'helper': 0, 'nsizes': 2})
     if not q:
